@@ -199,6 +199,9 @@ MNext == \/ (Running /\ (GenEnter \/ GenAfterNum \/ GenLoop \/ GenAfterConv \/ P
                          \/ ImplTest \/ ImplAfter \/ (ConvStep /\ ~IsBinAfter(Top.k)) \/ (ConvAfter /\ IsBinAfter(Top.k))))
          \/ Finish
 MSpec == Init /\ [][MNext]_mvars
+MFair == MSpec /\ WF_mvars(MNext)
+\* every parse comes to an end (liveness, under weak fairness of the machine's steps)
+Terminates == <>(status # "run")
 
 (***************************************************************************)
 (* What the machine must satisfy.                                          *)
